@@ -12,7 +12,7 @@ def desc(shape):
             (f", max-age {[600, 0, 1, 4294967295][(shape // 128 + shape // 64) % 4]}" if b(3) else "") + (", configured allow-headers" if b(4) else "") + (", OPTIONS request" if b(5) else ", GET request") +
             (", with Access-Control-Request-Headers (3 symbolic bytes)" if b(6) else "") + ", inner status " + ["200", "501", "404", "400"][shape // 128])
 # quick: 18 shapes chosen so that every bit takes both values with OPTIONS and with GET, and every inner status occurs under OPTIONS
-QUICK = {0b0100000 + 128, 0b1100000 + 128, 0b0111111 + 128, 0b1101110 + 128, 0b0100010 + 384, 0b0100001 + 256, 0b1110100 + 0, 0b0101011 + 128,
+QUICK = {0b0100000 + 128, 0b1100000 + 128, 0b0110111 + 128, 0b1101110 + 128, 0b0100010 + 384, 0b0100001 + 256, 0b1110100 + 0, 0b0101011 + 128,
          0b0000000 + 0, 0b0000011 + 0, 0b0011110 + 256, 0b1011101 + 384, 0b0000110 + 128, 0b1000001 + 0, 0b0010010 + 384, 0b0001100 + 256,
          104, 296}   # 104 / 296: OPTIONS with max-age 0 / 1 (boundary values)
 HARNESSES = [H(f"c14_cors_bite_contract_k{k:02d}", tier="quick" if k in QUICK else "thorough",
